@@ -88,22 +88,32 @@ def job(args):
                 continue
             base = None if bkind == 'none' else (mk(bflag, None) if bkind == 'tracked' else AObj('ndarray_plain', {}))
             # __setitem__
+            cfgtxt = f"self flag {sflag}, base {bkind}/{bflag}"
             o = mk(sflag, base)
-            w.interp.call_function(setitem, [o, ZERO, ONE], self_obj=o)
-            okk = o.attrs['_modified'] is True and (bkind != 'tracked' or base.attrs['_modified'] is True)
-            ob('P3', 'utilities.TrackedArray.__setitem__', okk, f"self flag {sflag}, base {bkind}/{bflag}: after item assignment self={o.attrs['_modified']}, base={(base.attrs.get('_modified') if base else None)}", setitem.loc())
+            try:
+                w.interp.call_function(setitem, [o, ZERO, ONE], self_obj=o)
+                okk = o.attrs['_modified'] is True and (bkind != 'tracked' or base.attrs['_modified'] is True)
+                ob('P3', 'utilities.TrackedArray.__setitem__', okk, f"{cfgtxt}: after item assignment self={o.attrs['_modified']}, base={(base.attrs.get('_modified') if base else None)}", setitem.loc())
+            except AbstractRaise as e:
+                ob('P3', 'utilities.TrackedArray.__setitem__', False, f"{cfgtxt}: raises {e.exc}: {e.msg}", setitem.loc())
             # getter
             o = mk(sflag, base if bkind != 'tracked' else mk(bflag, None))
-            got = w.interp.call_function(getter, [o], self_obj=o)
             want = sflag or (bkind == 'tracked' and bflag)
-            ob('P3', 'utilities.TrackedArray.modified.getter', got is want or got == want, f"self flag {sflag}, base {bkind}/{bflag}: getter returns {got}, expected {want}", getter.loc())
+            try:
+                got = w.interp.call_function(getter, [o], self_obj=o)
+                ob('P3', 'utilities.TrackedArray.modified.getter', got is want or got == want, f"{cfgtxt}: getter returns {got}, expected {want}", getter.loc())
+            except AbstractRaise as e:
+                ob('P3', 'utilities.TrackedArray.modified.getter', False, f"{cfgtxt}: raises {e.exc}: {e.msg}", getter.loc())
             # setter
             for v in (False, True):
                 b2 = None if bkind == 'none' else (mk(bflag, None) if bkind == 'tracked' else AObj('ndarray_plain', {}))
                 o = mk(sflag, b2)
-                w.interp.call_function(setter, [o, v], self_obj=o)
-                okk = o.attrs['_modified'] is v and (bkind != 'tracked' or b2.attrs['_modified'] is v)
-                ob('P3', 'utilities.TrackedArray.modified.setter', okk, f"set {v}: self={o.attrs['_modified']}, base={(b2.attrs.get('_modified') if b2 else None)}", setter.loc())
+                try:
+                    w.interp.call_function(setter, [o, v], self_obj=o)
+                    okk = o.attrs['_modified'] is v and (bkind != 'tracked' or b2.attrs['_modified'] is v)
+                    ob('P3', 'utilities.TrackedArray.modified.setter', okk, f"set {v}: self={o.attrs['_modified']}, base={(b2.attrs.get('_modified') if b2 else None)}", setter.loc())
+                except AbstractRaise as e:
+                    ob('P3', 'utilities.TrackedArray.modified.setter', False, f"{cfgtxt}, set {v}: raises {e.exc}: {e.msg}", setter.loc())
         # __array_finalize__: inherits the parent's flag (a view of a dirty array is dirty), default False
         for pflag in (False, True):
             o = AObj('TrackedArray', {})
